@@ -313,6 +313,16 @@ def e09_after_dummy(tree, pts, ins, pick):
             follower = {"tag": "field", "name": _fresh(_all_names(p), "zaft"), "type": "char"}
             _switch_then_follower(p, pick, [{"tag": "dummy", "type": "char", "value": "0"}], follower)
             return "via_nonlast_case:" + p.placement
+    if pick([0, 1, 2, 3]) == 0:
+        # the dummy closes a <chunked> section of its own; the follower comes after </chunked>
+        roots = [p for p in pts if p.idx == len(p.lst) and not p.opt and p.depth == 0 and not p.dummy and not p.lex]
+        if roots:
+            p = pick(roots)
+            names = _all_names(p)
+            p.lst.append({"tag": "chunked", "body": [{"tag": "field", "name": _fresh(names, "zc"), "type": "char"},
+                                                      {"tag": "dummy", "type": "char", "value": "0"}]})
+            p.lst.append({"tag": "field", "name": _fresh(names | {"zc"}, "zaft"), "type": "char"})
+            return "after_closed_chunk:" + p.placement
     c = [p for p in pts if p.dummy]
     if not c:
         # create the situation: append a dummy and a follower at the end of a body
